@@ -85,4 +85,8 @@ if keep and meta.get('valid'):
         old = json.load(open(f'{d}/meta.json'))
     for k in ('needs_to_manifest', 'what'):
         if k in old: meta[k] = old[k]
+    nf = '/verif/seeded/notes.json'
+    if os.path.exists(nf):
+        n = json.load(open(nf)).get(f'{prop}-{which}')
+        if n: meta['what'], meta['needs_to_manifest'] = n[0], n[1]
     json.dump(meta, open(f'{d}/meta.json', 'w'), indent=1)
